@@ -387,11 +387,16 @@ DIAGNOSTICS = []      # internal divergences printed by trace specifications (no
 
 
 def shard_traces(lines, k):
-    """Split ndjson trace lines into <= k shards at 'begin' boundaries."""
+    """Split ndjson trace lines into shards at trace boundaries: 'begin' events, or every line when the file has no
+    'begin' event (self-contained records).  At least k shards when there are that many traces, and more when a
+    shard would exceed about 48 MB of JSON (a shard is loaded whole by one JVM)."""
     starts = [i for i, l in enumerate(lines) if l.startswith('{"ev":"begin"') or '"ev":"begin"' in l[:80]]
     if not starts:
-        return [lines] if lines else []
-    k = max(1, min(k, len(starts)))
+        starts = list(range(len(lines)))
+    if not starts:
+        return []
+    total = sum(len(l) for l in lines)
+    k = max(1, min(max(k, total // (48 << 20) + 1), len(starts)))
     per = (len(starts) + k - 1) // k
     shards = []
     for j in range(0, len(starts), per):
@@ -419,7 +424,7 @@ def validate_traces(sc, d, module, cfg, trace_path, shards=None, timeout=1800, h
         lines = [l for l in f.read().split("\n") if l]
     if not lines:
         return 0, 0, [], 0, 0
-    sh = shard_traces(lines, shards or NCPU)
+    sh = [lines] if shards == 1 else shard_traces(lines, shards or NCPU)
     results = [None] * len(sh)
     errors = []
     # no more JVMs side by side than the memory available now allows (about 1.5 GB each)
